@@ -44,6 +44,10 @@ type CallSpec struct {
 	// SharedHeader: the request uses the header map this world's caller keeps per host and reuses for
 	// every such call (a RoundTripper must not modify the request, so that is harmless). Sequential calls only.
 	SharedHeader bool `json:"shared_header,omitempty"`
+	// HostHeader, if set, is put into the request's Host field (the Host header a client may override,
+	// e.g. behind a tunnel): the request still goes to the host its URL names, and that host is the one
+	// whose credentials apply.
+	HostHeader string `json:"host_header,omitempty"`
 	// PreCancelled: the request's context is already cancelled when RoundTrip is entered.
 	PreCancelled bool `json:"pre_cancelled,omitempty"`
 }
@@ -139,6 +143,9 @@ func (w *World) Do(tr http.RoundTripper, spec CallSpec) *CallResult {
 	req, err := http.NewRequestWithContext(ctx, method, "https://"+spec.Host+spec.Path, nil)
 	if err != nil {
 		panic(err)
+	}
+	if spec.HostHeader != "" {
+		req.Host = spec.HostHeader
 	}
 	if spec.SharedHeader {
 		w.mu.Lock()
